@@ -174,6 +174,8 @@ def run(chk):
     repo = chk.repo
     r1_races(chk, repo)
     r2_multi_run(chk, repo)
+    r3_work_queue(chk, repo)
+    r4_publish_after_construct(chk, repo)
 
 
 def r1_races(chk, repo):
@@ -310,8 +312,119 @@ def r2_multi_run(chk, repo):
                     keyed = True
         chk.check(ok1 and keyed, "C15.R2", f, stmt_of(c), "worker is not submitted as exec_function(run_id, ...) and remembered under that run id", site_text="multi_run: futures[submit(exec_function, r, ...)] = r")
 
+# ------------------------------------------------------------------------------------ R3
+def r3_work_queue(chk, repo):
+    from ..linear import linear
+    from ..pattern import find as pfind, pmatch
+    chk.describe("C15.R3", "multi_run submits every run exactly once: the first batch and every top-up take consecutive slices of the same (sorted) sequence, the cursor advances once per submission, and every finished future - failed or not - frees a slot")
+    R = "C15.R3"
+    f = repo.func("multi_run", UTILS)
+    cfg = cfg_of(f)
+    sl = [c for c in calls_in(f.node) if (call_name(c) or "").endswith("islice") and len(c.args) >= 2]
+    chk.check(len(sl) == 2, R, f, None, f"expected the first batch and the top-up to be taken with islice, found {len(sl)} islice calls", site_text="multi_run: two islice sites")
+    if len(sl) != 2:
+        return
+    sl.sort(key=lambda c: c.lineno)
+    first, top = sl
+    seqs = {norm(c.args[0]) for c in sl}
+    chk.check(len(seqs) == 1, R, f, stmt_of(top), f"the first batch and the top-ups are taken from different sequences ({sorted(seqs)}): some runs are loaded twice and others never", site_text="multi_run: one sequence for all submissions", site={"function": f.qualname, "rule": "same sequence"})
+    SEQ = norm(first.args[0])
+    srt = [st for st in walk_body(f.node) if isinstance(st, ast.Assign) and norm(st.targets[0]) == SEQ and isinstance(st.value, ast.Call) and (call_name(st.value) or "").split(".")[-1] in ("stable_sort", "sort", "sorted")]
+    chk.check(bool(srt), R, f, None, "the submitted sequence is not the sorted run list", site_text="multi_run: sequence = stable_sort(run ids)", nontrivial=False)
+    # cursor: top-up starts at the cursor, which starts where the first batch ended and advances once per submission
+    chk.check(len(top.args) == 3 and isinstance(top.args[1], ast.Name), R, f, stmt_of(top), "top-up slice does not start at a cursor variable", site_text="multi_run: islice(seq, cursor, stop)")
+    if not (len(top.args) == 3 and isinstance(top.args[1], ast.Name)):
+        return
+    CUR = top.args[1].id
+    first_stop = norm(first.args[2]) if len(first.args) == 3 else norm(first.args[1])
+    first_start = norm(first.args[1]) if len(first.args) == 3 else "0"
+    inits = [st for st in walk_body(f.node) if isinstance(st, ast.Assign) and norm(st.targets[0]) == CUR]
+    loop = enclosing(top, (ast.For,))
+    okc = loop is not None and loop.iter is top
+    incs = [st for st in walk_body(f.node) if isinstance(st, ast.AugAssign) and norm(st.target) == CUR]
+    okc = okc and len(incs) == 1 and isinstance(incs[0].op, ast.Add) and norm(incs[0].value) == "1" and incs[0] in loop.body
+    okc = okc and any(norm(st.value) == first_stop for st in inits) and (first_start == "0" or first_start == CUR)
+    chk.check(okc, R, f, stmt_of(top), "the cursor does not continue where the first batch ended / does not advance exactly once per submission: runs are skipped or submitted twice", site_text="multi_run: cursor = size of first batch; cursor += 1 per submission")
+    # number of new submissions per round = number of futures that finished in this round
+    wl = enclosing(loop, (ast.While,)) if loop is not None else None
+    done = None
+    for st in walk_body(wl) if wl is not None else []:
+        if isinstance(st, ast.Assign) and isinstance(st.value, ast.Call) and call_name(st.value) == "wait" and isinstance(st.targets[0], ast.Tuple):
+            done = norm(st.targets[0].elts[0])
+    chk.need(done is not None, "C15.R3: `done, _ = wait(futures, ...)` not found in multi_run")
+    dl = [st for st in walk_body(wl) if isinstance(st, ast.For) and norm(st.iter) == done]
+    form = linear(ast.BinOp(left=top.args[2], op=ast.Sub(), right=top.args[1]))
+    const = form.pop("1", 0)
+    okn = True
+    why = ""
+    for sym, coef in form.items():
+        if sym == f"len({done})" and coef == 1:
+            continue
+        # a counter: must be incremented for every finished future on every path of the collecting loop
+        cnt_incs = [st for st in walk_body(f.node) if isinstance(st, ast.AugAssign) and norm(st.target) == sym]
+        good = False
+        if coef == 1 and cnt_incs and dl:
+            body_first = cfg.nodes_of(dl[0].body[0])
+            ln = cfg.node_of(dl[0])
+            inc_nodes = [cfg.node_of(x) for x in cnt_incs]
+            inside = {id(x) for st_ in dl[0].body for x in ast.walk(st_)}
+            in_loop = lambda n: id(n.stmt if n.kind == "stmt" else n.owner) in inside
+            good = all(isinstance(x.op, ast.Add) and norm(x.value) == "1" for x in cnt_incs) and (any(b in inc_nodes for b in body_first) or cfg.every_path(body_first, [ln], lambda n: n in inc_nodes or (n is not ln and not in_loop(n)), "n")[0])
+        if not good:
+            okn = False
+            why = f"`{sym}` (coefficient {coef}) does not count every finished future"
+    chk.check(okn and bool(form), R, f, stmt_of(top), f"the number of runs submitted after a round is not the number of futures that finished in it ({why or 'no dependence on the finished futures'}): failed runs keep their slots, the pool drains and the remaining runs are silently never loaded",
+              site_text="multi_run: top-up size = futures finished this round", site={"function": f.qualname, "rule": "every finished future frees a slot"})
+    # the top-up is not skipped by the failure handling (it sits in the while body, outside the collecting loop)
+    chk.check(loop is not None and wl is not None and loop in wl.body, R, f, stmt_of(top), "the top-up is not executed once per wait round", site_text="multi_run: top-up at the end of every wait round")
+
+
+# ------------------------------------------------------------------------------------ R4
+def r4_publish_after_construct(chk, repo):
+    chk.describe("C15.R4", "a plugin is put into the shared plugin cache only when fully built: after the store, nothing writes to it or calls its initialisers (another worker may copy it from the cache at any time)")
+    f = repo.func("Context.__get_plugin", CONTEXT)
+    cfg = cfg_of(f)
+    news = [st for st in walk_body(f.node) if isinstance(st, ast.Assign) and isinstance(st.targets[0], ast.Name) and isinstance(st.value, ast.Call) and isinstance(st.value.func, ast.Subscript) and "self._plugin_class_registry" in norm(st.value.func.value)]
+    chk.need(len(news) == 1, "C15.R4: plugin instantiation in Context.__get_plugin not found")
+    P = news[0].targets[0].id
+    pubs = [n for n in cfg.stmt_nodes() if not isinstance(n.stmt, COMPOUND) and node_calls(n, lambda c, nm: nm == "self._plugins_to_cache" and any(isinstance(x, ast.Name) and x.id == P for a in c.args for x in ast.walk(a)))]
+    chk.check(len(pubs) == 1, "C15.R4", f, None, "the freshly built plugin is not stored in the plugin cache at exactly one place", site_text="__get_plugin: one _plugins_to_cache(plugin) site")
+    for pub in pubs:
+        after = cfg.reachable([pub], "n") - {pub}
+        for n in sorted(after, key=lambda x: x.id):
+            if n.kind != "stmt" or isinstance(n.stmt, COMPOUND):
+                continue
+            st = n.stmt
+            bad = None
+            if isinstance(st, (ast.Assign, ast.AugAssign)):
+                tgs = st.targets if isinstance(st, ast.Assign) else [st.target]
+                for t in tgs:
+                    root = t
+                    while isinstance(root, (ast.Attribute, ast.Subscript)):
+                        root = root.value
+                    if isinstance(root, ast.Name) and root.id == P and root is not t:
+                        bad = f"`{head(st, 60)}` writes to the plugin"
+            if isinstance(st, ast.Expr) and isinstance(st.value, ast.Call):
+                c = st.value
+                if isinstance(c.func, ast.Attribute) and isinstance(c.func.value, ast.Name) and c.func.value.id == P:
+                    bad = f"`{head(st, 60)}` runs an initialiser of the plugin"
+                elif any(isinstance(a, ast.Name) and a.id == P for a in c.args) and (call_name(c) or "") != "self._plugins_to_cache":
+                    bad = f"`{head(st, 60)}` hands the plugin to a mutating helper"
+            chk.check(bad is None, "C15.R4", f, st, f"{bad} after it was put into the shared cache: a concurrent worker can pick up the half-built plugin (and a failure here leaves a broken plugin cached for all later runs)",
+                      site_text=f"__get_plugin: `{head(st, 50)}` does not touch the published plugin", site={"function": f.qualname, "after_publish": norm(st)[:80]}, nontrivial=bad is not None)
+
 
 WITNESSES = [
+    W("top-up reads the caller's unsorted list", "C15.R3", UTILS,
+      "for r in itertools.islice(run_id_numpy, task_index, task_index + len(futures_done)):", "for r in itertools.islice(run_ids, task_index, task_index + len(futures_done)):"),
+    W("top-up sized by a counter of successes", "C15.R3", UTILS,
+      "for r in itertools.islice(run_id_numpy, task_index, task_index + len(futures_done)):", "for r in itertools.islice(run_id_numpy, task_index, task_index + len(final_result) - len(final_result) + 1):"),
+    W("cursor advanced twice per submission", "C15.R3", UTILS,
+      "task_index += 1\n                fut = exc.submit", "task_index += 2\n                fut = exc.submit"),
+    W("plugin cached before fix_dtype", "C15.R4", CONTEXT,
+      "plugin.fix_dtype()\n\n        # Add plugin to cache\n        self._plugins_to_cache({data_type: plugin for data_type in plugin.provides})", "self._plugins_to_cache({data_type: plugin for data_type in plugin.provides})\n        plugin.fix_dtype()"),
+    W("plugin cached before its lineage is known", "C15.R4", CONTEXT,
+      "self.__add_lineage_to_plugin(run_id, plugin)\n\n        if not hasattr(plugin, \"data_kind\")", "self._plugins_to_cache({data_type: plugin for data_type in plugin.provides})\n        self.__add_lineage_to_plugin(run_id, plugin)\n\n        if not hasattr(plugin, \"data_kind\")"),
     W("cache the base hash dict on self", "C15.R1", CONTEXT,
       "_base_hash_on_config = deepcopy(self.config)", "self.config[\"_last_hashed\"] = 1\n        _base_hash_on_config = deepcopy(self.config)"),
     W("run-defaults cache iterated while workers fill it", "C15.R1", CONTEXT,
